@@ -420,6 +420,29 @@ func ruleC02(w *World, r *Report) {
 	ruleC02SEID(w, r, handlers, acceptedConst)
 	ruleC02Accepted(w, r, handlers, acceptedConst)
 	ruleC02NonZero(w, r)
+	// R02.9: a session response is addressed to the CP SEID of the session the UP SEID names — two live
+	// sessions never share a UP SEID (the uniqueness rules of C07 R07.5, re-filed)
+	r.withRule("R02.9", func() { ruleC07SEID(w, r) })
+	// R02.8: a request that fits into a UDP datagram fits into the buffer it is read into
+	{
+		serve := w.Fn(P, "pfcpiface.(*PFCPConn).Serve")
+		n := 0
+		for _, g := range withClosures(serve) {
+			allInstrs(g, func(i ssa.Instruction) {
+				c, ok := i.(*ssa.Call)
+				if !ok || !c.Call.IsInvoke() || c.Call.Method.Name() != "Read" || len(c.Call.Args) != 1 {
+					return
+				}
+				if !strings.HasSuffix(symOf(c.Call.Value).String(), "PFCPConn.Conn") {
+					return
+				}
+				n++
+				lo, _, why := w.lenFromDef(c.Call.Args[0], nil, g, c)
+				r.check(lo >= 65507, "R02.8", w.FuncName(g), "the per-peer receive buffer holds the largest UDP payload", w.Pos(c.Pos()), fmt.Sprintf("len ≥ %d (%s)", lo, why), fmt.Sprintf("the socket is read into a buffer of %d bytes: a well-formed request larger than that (a Session Establishment with a dozen PDRs) is truncated by the kernel, fails to parse and is never answered", lo))
+			})
+		}
+		r.floor("R02.8 reads of the per-peer socket", n, 1)
+	}
 	// R02.6: a request can only be answered while somebody reads the socket: the reader goroutine ends only with the association
 	r.withRule("R02.6", func() { ruleC01Reader(w, r) })
 }
